@@ -262,6 +262,34 @@ def correspond(ctx):
                     break
                 lines.append(f'c06.berr2d {m} {n} {dr} {dc} {q(lamr)} {q(lamc)} {qs(w_seq[k])} {qs(Y.ravel())} {qs(np.asarray(v).ravel())}')
                 metas.append(('berr', {'host': '2d.' + host, 'kind': '2d', 'shape': [m, n], 'd': [dr, dc], 'lam': [lamr, lamc], 'step': k, 'kw': {}, 'x': [], 'y': []}))
+    # 2-D returned pairs (direct system): with tol = inf the run stops after its first solve, and when a run reports convergence,
+    # the returned baseline and the returned weights must satisfy the documented system together
+    for host in ('asls', 'airpls', 'arpls', 'iarpls', 'psalsa', 'lsrpls', 'brpls'):
+        for (m, n, dr, dc) in [(6, 5, 2, 1), (5, 7, 1, 2), (7, 6, 2, 2)]:
+            if not ctx.thorough and rng.random() < 0.35:
+                continue
+            x, z, Y = M.make_data2d(rng, m, n)
+            lamr, lamc = float(10.0 ** int(rng.integers(0, 4))), float(10.0 ** int(rng.integers(0, 4)))
+            W0 = np.round(rng.uniform(0.2, 1, (m, n)) * 64) / 64
+            for mode, kw in (('first-solve', dict(tol=np.inf, weights=W0)), ('converged', dict(tol=1e-3, max_iter=60))):
+                if host == 'brpls':
+                    kw = dict(kw, tol_2=kw['tol'])
+                try:
+                    with np.errstate(all='ignore'):
+                        b, p = getattr(Baseline2D(x, z), host)(Y, lam=(lamr, lamc), diff_order=(dr, dc), num_eigens=None, **kw)
+                except Exception as ex:
+                    ctx.count('2d-pair-raised:' + type(ex).__name__)
+                    continue
+                th = np.asarray(p.get('tol_history', [np.inf]), dtype=float).ravel()
+                if mode == 'converged' and not (th.size and th[-1] < 1e-3 and th.size < 61):
+                    continue
+                if not (np.all(np.isfinite(b)) and np.all(np.isfinite(p['weights']))):
+                    continue
+                ctx.case(('2d-pair', host, m, n, dr, dc, lamr, lamc, mode), nontrivial=True)
+                ctx.count('host2d-pair:' + host)
+                lines.append(f'c06.berr2d {m} {n} {dr} {dc} {q(lamr)} {q(lamc)} {qs(np.asarray(p["weights"], float).ravel())} {qs(Y.ravel())} {qs(np.asarray(b).ravel())}')
+                metas.append(('berr', {'host': '2d.' + host, 'kind': '2d', 'shape': [m, n], 'd': [dr, dc], 'lam': [lamr, lamc], 'step': 'returned pair (' + mode + ')',
+                                       'kw': {}, 'x': [], 'y': []}))
     # 2-D with eigendecomposition: each solve must be the Galerkin solution of the documented system in the eigenbasis
     # of EACH axis' own penalty (certificate with independently computed dense eigenvectors; see also C20)
     from .c20 import galerkin_check
